@@ -117,6 +117,26 @@ Proof.
 Qed.
 Print Assumptions c27_mixed_sizes_refuted.
 
+(** Link to the implementation: when the correspondence check succeeds on a case with auto
+    allocation on and a uniform pre-populated table, every response OBSERVED on the real MMU's
+    Top port answers a scripted request (its ID, its requester) with the page that the model's
+    final table — compared with the real table's checkpoint by the same check — binds to that
+    request's (process, virtual page). *)
+From Akita Require Import C26.Exec C27.Exec C27.Link.
+Theorem c27_model_agreement_implies_property : forall c,
+  c_auto c = true -> uniform (c_log2 c) (pre_table (c_log2 c) (c_pre c)) -> check_case c = true ->
+  exists oc m obs,
+    env_run id_oracle (mmu_init (c_log2 c) (c_lat c) (c_max c) true (c_cap c) (pre_table (c_log2 c) (c_pre c))) (c_script c) = (oc, m, obs) /\
+    forall ob r, In ob (o_ticks c) -> In r (to_rsps ob) -> rsp_ok (c_log2 c) (m_tab m) (script_reqs (c_script c)) r.
+Proof.
+  intros c Au U H. pose proof (check_case_obs c H) as Hobs. cbv zeta in Hobs. rewrite Au in Hobs.
+  destruct (env_run id_oracle (mmu_init (c_log2 c) (c_lat c) (c_max c) true (c_cap c) (pre_table (c_log2 c) (c_pre c))) (c_script c))
+    as [[oc m] obs] eqn:E.
+  cbn [snd] in Hobs. subst obs. exists oc, m, (o_ticks c). split; [reflexivity|].
+  destruct (c27_one_mapping id_oracle _ _ _ _ _ _ _ _ _ id_oracle_valid U E) as [_ [R _]]. exact R.
+Qed.
+Print Assumptions c27_model_agreement_implies_property.
+
 (** Non-vacuity: a uniform table in which two processes share frame 0 and frame 0x2000 is
     taken; four walks of one unmapped page in flight with a one-slot Top buffer. *)
 Definition demo_table : table :=
